@@ -60,11 +60,14 @@ pub struct Recorder {
 	/// teardown is a violation for this run (C18 mode)
 	pub strict_teardown: bool,
 	pub property: String,
+	/// the run only serves the teardown (C18) oracle: other oracles of the scenario are muted
+	pub only_teardown: bool,
 }
 impl Recorder {
 	pub fn new(keep_log: bool, strict_teardown: bool, property: &str) -> Self {
 		Self {
 			property: property.to_owned(),
+			only_teardown: false,
 			hasher: Sha256::new(),
 			keep_log,
 			log: Vec::new(),
@@ -103,6 +106,9 @@ impl Recorder {
 		self.states.insert(h);
 	}
 	pub fn violate(&mut self, oracle: &str, signature: &str, detail: impl Into<String>) {
+		if self.only_teardown && !(oracle.starts_with("teardown") || oracle == "panic") {
+			return;
+		}
 		if self.violation.is_none() {
 			let v = Violation {
 				oracle: oracle.to_owned(),
@@ -115,6 +121,9 @@ impl Recorder {
 	}
 	pub fn known(&mut self, finding: &str, what: impl Into<String>) {
 		let what = what.into();
+		if self.only_teardown {
+			return;
+		}
 		if !crate::known::is_listed(finding, &self.property) {
 			// not (or no longer) listed: it is an ordinary violation
 			self.violate("unlisted-finding", finding, what);
@@ -292,6 +301,8 @@ pub struct BatchCfg {
 	pub collect_digests_upto: u64,
 	/// stop generating new runs after this wall budget (only reduces coverage)
 	pub budget: Option<Duration>,
+	/// first run index (runs cover first..runs)
+	pub first: u64,
 }
 
 #[derive(Default)]
@@ -338,7 +349,7 @@ pub fn run_batch<S: Scenario>(s: &S, cfg: &BatchCfg) -> BatchResult {
 			let cfg = cfg.clone();
 			scope.spawn(move || {
 				let mut local = BatchResult::default();
-				let mut i = w as u64;
+				let mut i = cfg.first + w as u64;
 				while i < cfg.runs {
 					if i >= cutoff.load(Ordering::SeqCst) {
 						break;
